@@ -1,1 +1,425 @@
-/-! C10 — property theorems (placeholder until the model exists). -/
+import EupsModel.Lemmas.VersionMatch
+import EupsModel.Lemmas.VersionLex
+/-! C10 — version names are ordered consistently: property theorems.
+
+`stdCompare strict a b` is the model of `hooks.version_cmp(a, b, mustReturnInt = !strict)`
+(`Model/VersionCmp.lean`); a name is *accepted* when `lex` succeeds on it (the only way it does not is
+the `AttributeError` of `_splitVersion` on a name that starts with `-` or `+`). -/
+namespace EupsModel.C10
+open EupsModel EupsModel.VersionCmp
+
+/-! names used in the examples and witnesses, as code points (`#guard` checks the spelling) -/
+def n_1d2mrc1p3 : Str := [49, 46, 50, 45, 114, 99, 49, 43, 51]   -- 1.2-rc1+3
+#guard Str.toString n_1d2mrc1p3 == "1.2-rc1+3"
+def n_1d2 : Str := [49, 46, 50]   -- 1.2
+#guard Str.toString n_1d2 == "1.2"
+def n_rc1 : Str := [114, 99, 49]   -- rc1
+#guard Str.toString n_rc1 == "rc1"
+def n_3 : Str := [51]   -- 3
+#guard Str.toString n_3 == "3"
+def n_1d10 : Str := [49, 46, 49, 48]   -- 1.10
+#guard Str.toString n_1d10 == "1.10"
+def n_1d9 : Str := [49, 46, 57]   -- 1.9
+#guard Str.toString n_1d9 == "1.9"
+def n_v1 : Str := [118, 49]   -- v1
+#guard Str.toString n_v1 == "v1"
+def n_w1 : Str := [119, 49]   -- w1
+#guard Str.toString n_w1 == "w1"
+def n_m1 : Str := [45, 49]   -- -1
+#guard Str.toString n_m1 == "-1"
+def n_1 : Str := [49]   -- 1
+#guard Str.toString n_1 == "1"
+def n_v1d0 : Str := [118, 49, 46, 48]   -- v1.0
+#guard Str.toString n_v1d0 == "v1.0"
+def n_v1u0mrc1 : Str := [118, 49, 95, 48, 45, 114, 99, 49]   -- v1_0-rc1
+#guard Str.toString n_v1u0mrc1 == "v1_0-rc1"
+def n_v1d0mrc1 : Str := [118, 49, 46, 48, 45, 114, 99, 49]   -- v1.0-rc1
+#guard Str.toString n_v1d0mrc1 == "v1.0-rc1"
+def n_01mrc02p1 : Str := [48, 49, 45, 114, 99, 48, 50, 43, 49]   -- 01-rc02+1
+#guard Str.toString n_01mrc02p1 == "01-rc02+1"
+def n_1mrc02p1 : Str := [49, 45, 114, 99, 48, 50, 43, 49]   -- 1-rc02+1
+#guard Str.toString n_1mrc02p1 == "1-rc02+1"
+def n_2 : Str := [50]   -- 2
+#guard Str.toString n_2 == "2"
+def n_10 : Str := [49, 48]   -- 10
+#guard Str.toString n_10 == "10"
+def n_1a : Str := [49, 97]   -- 1a
+#guard Str.toString n_1a == "1a"
+def n_1d2d0 : Str := [49, 46, 50, 46, 48]   -- 1.2.0
+#guard Str.toString n_1d2d0 == "1.2.0"
+def n_1d2mrc1 : Str := [49, 46, 50, 45, 114, 99, 49]   -- 1.2-rc1
+#guard Str.toString n_1d2mrc1 == "1.2-rc1"
+def n_1d2p1 : Str := [49, 46, 50, 43, 49]   -- 1.2+1
+#guard Str.toString n_1d2p1 == "1.2+1"
+def n_a1db2 : Str := [97, 49, 46, 98, 50]   -- a1.b2
+#guard Str.toString n_a1db2 == "a1.b2"
+
+/-! ## which names are accepted; the model's recursion bound -/
+
+/-- Every name that does not start with `-` or `+` is accepted, and so is every name with at least two
+hyphens (`rel-0-8-2`: the whole name is the primary part) and the empty name. -/
+theorem C10_accepted (a : Str) (h : a = [] ∨ hyphens a ≥ 2 ∨ ∃ c cs, a = c :: cs ∧ notPM c = true) :
+    ∃ la, lex a = .ok la := lex_accepts a h
+
+/-- A comparison ends with an integer, with the rejection of a malformed name, or — strict mode only —
+with "cannot be sorted"; in particular the recursion bound of the model's `lex` is never hit. -/
+theorem C10_outcomes (strict : Bool) (a b : Str) (e : Err) (h : stdCompare strict a b = .error e) :
+    e = .malformed ∨ (strict = true ∧ e = .unsortable) := stdCompare_error h
+
+example : ∃ la, lex n_1d2mrc1p3 = .ok la := C10_accepted _ (Or.inr (Or.inr ⟨49, _, rfl, by decide⟩))
+
+/-! ## reflexivity and antisymmetry: every accepted name, both modes -/
+
+/-- A name the comparator accepts compares equal to itself, in the sorting and in the strict mode. -/
+theorem C10_refl (strict : Bool) (a : Str) (la : Lexed) (h : lex a = .ok la) :
+    stdCompare strict a a = .ok 0 := by
+  cases strict <;> simp [stdCompare, h, cmpLexed, cmpSort_self, cmpStrict_self]
+
+/-- Sorting mode (`mustReturnInt=True`): it answers for every pair of accepted names … -/
+theorem C10_sort_total (a b : Str) (la lb : Lexed) (ha : lex a = .ok la) (hb : lex b = .ok lb) :
+    ∃ r, stdCompare false a b = .ok r := by
+  exact ⟨cmpSort la lb, by simp [stdCompare, ha, hb, cmpLexed]⟩
+
+/-- … and swapping the arguments negates the answer, for every pair of names whatsoever. -/
+theorem C10_antisym (a b : Str) (r : Int) (h : stdCompare false a b = .ok r) :
+    stdCompare false b a = .ok (-r) := by
+  simp only [stdCompare] at h ⊢
+  cases ha : lex a with
+  | error e => simp [ha] at h
+  | ok la =>
+    cases hb : lex b with
+    | error e => simp [ha, hb] at h
+    | ok lb =>
+      simp only [ha, hb, cmpLexed, Bool.false_eq_true, if_false, Except.ok.injEq] at h ⊢
+      rw [← h, cmpSort_antisym la lb]; omega
+
+/-- Strict mode (`mustReturnInt=False`, the mode of relational expressions): an answer is negated by
+swapping the arguments … -/
+theorem C10_antisym_strict (a b : Str) (r : Int) (h : stdCompare true a b = .ok r) :
+    stdCompare true b a = .ok (-r) := by
+  simp only [stdCompare] at h ⊢
+  cases ha : lex a with
+  | error e => simp [ha] at h
+  | ok la =>
+    cases hb : lex b with
+    | error e => simp [ha, hb] at h
+    | ok lb =>
+      simp only [ha, hb, cmpLexed, if_true] at h ⊢
+      rw [cmpStrict_symm la lb, h]
+
+/-- … and "cannot be sorted" does not depend on the order of the arguments (accepted names). -/
+theorem C10_unsortable_symm (a b : Str) (la lb : Lexed) (ha : lex a = .ok la) (hb : lex b = .ok lb) (e : Err)
+    (h : stdCompare true a b = .error e) : stdCompare true b a = .error e := by
+  simp only [stdCompare, ha, hb, cmpLexed, if_true] at h ⊢
+  rw [cmpStrict_symm la lb, h]
+
+/-- The two modes never contradict each other: when the strict mode answers, the sorting mode gives
+the same answer. -/
+theorem C10_strict_agrees_with_sort (a b : Str) (r : Int) (h : stdCompare true a b = .ok r) :
+    stdCompare false a b = .ok r := by
+  simp only [stdCompare] at h ⊢
+  cases ha : lex a with
+  | error e => simp [ha] at h
+  | ok la =>
+    cases hb : lex b with
+    | error e => simp [ha, hb] at h
+    | ok lb =>
+      simp only [ha, hb, cmpLexed, if_true, Bool.false_eq_true, if_false, Except.ok.injEq] at h ⊢
+      exact cmpStrict_agrees h
+
+/-! non-vacuity: accepted names, a strict answer, a strict refusal -/
+example : lex n_1d2mrc1p3 = .ok (.node n_1d2 (.node n_rc1 .absent .absent) (.node n_3 .absent .absent)) := by decide
+example : stdCompare true n_1d10 n_1d9 = .ok 1 := by decide
+example : stdCompare true n_v1 n_w1 = .error .unsortable := by decide
+example : stdCompare false n_m1 n_1 = .error .malformed := by decide
+
+/-! ## conventional names: a transitive total order with the stated shape
+
+`convName a` (model, `Bool`): `a` is accepted and every `.`/`_`-separated component of its primary,
+secondary and tertiary part is a run of letters followed by a run of digits (either may be empty).
+This contains the grammar of the property (`conventionalName`: `[letters] digits (sep digits)*`,
+optional `-pre`, optional `+post`; lemma `conventional_conv`) — the harness checks that every name
+its conventional generator produces satisfies `conventional` in the model. -/
+
+theorem convName_lex {a : Str} (h : convName a = true) : ∃ la, lex a = .ok la ∧ convLexed la = true := by
+  simp only [convName] at h
+  cases hl : lex a with
+  | error e => simp [hl] at h
+  | ok la => exact ⟨la, rfl, by simpa [hl] using h⟩
+
+theorem conventionalName_convName {a : Str} (h : conventionalName a = true) : convName a = true := by
+  simp only [conventionalName, convName] at h ⊢
+  cases hl : lex a with
+  | error e => simp [hl] at h
+  | ok la => simp only [hl] at h ⊢; exact conventional_conv h
+
+/-- Total: any two conventional names are comparable, one way or the other (sorting mode). -/
+theorem C10_conv_total (a b : Str) (ha : convName a = true) (hb : convName b = true) :
+    ∃ r, stdCompare false a b = .ok r ∧ stdCompare false b a = .ok (-r) ∧ (r ≤ 0 ∨ -r ≤ 0) := by
+  obtain ⟨la, hla, _⟩ := convName_lex ha
+  obtain ⟨lb, hlb, _⟩ := convName_lex hb
+  obtain ⟨r, hr⟩ := C10_sort_total a b la lb hla hlb
+  exact ⟨r, hr, C10_antisym a b r hr, by omega⟩
+
+/-- Transitive: `a ≤ b` and `b ≤ c` give `a ≤ c`, strictly if one of the steps is strict. -/
+theorem C10_conv_trans (a b c : Str) (ha : convName a = true) (hb : convName b = true) (hc : convName c = true)
+    (r1 r2 : Int) (h1 : stdCompare false a b = .ok r1) (h2 : stdCompare false b c = .ok r2)
+    (hr1 : r1 ≤ 0) (hr2 : r2 ≤ 0) :
+    ∃ r3, stdCompare false a c = .ok r3 ∧ r3 ≤ 0 ∧ ((r1 < 0 ∨ r2 < 0) → r3 < 0) := by
+  obtain ⟨la, hla, ca⟩ := convName_lex ha
+  obtain ⟨lb, hlb, cb⟩ := convName_lex hb
+  obtain ⟨lc, hlc, cc⟩ := convName_lex hc
+  simp only [stdCompare, hla, hlb, hlc, cmpLexed, Bool.false_eq_true, if_false, Except.ok.injEq] at h1 h2 ⊢
+  subst h1; subst h2
+  refine ⟨_, rfl, good_cmpSort.trans la lb lc ca cb cc hr1 hr2, ?_⟩
+  rintro (h | h)
+  · exact good_cmpSort.lt_of_lt_le ca cb cc h hr2
+  · exact good_cmpSort.lt_of_le_lt ca cb cc hr1 h
+
+/-- In the strict mode (the one relational expressions use) conventional names of the property's
+grammar that carry the same letters in front are always sortable, with the sorting mode's answer. -/
+theorem C10_conv_strict_total (a b : Str) (la lb : Lexed) (hla : lex a = .ok la) (hlb : lex b = .ok lb)
+    (ha : conventional la = true) (hb : conventional lb = true) (hp : letterPrefix la = letterPrefix lb) :
+    stdCompare true a b = stdCompare false a b := by
+  simp only [stdCompare, hla, hlb, cmpLexed, if_true, Bool.false_eq_true, if_false]
+  exact cmpStrict_of_intPairs (intPairs_conventional ha hb hp)
+
+/-- Components compare numerically: the first differing components, with the same letters and
+different numbers, decide by the numbers (`1.9 < 1.10`, `v2 < v10`, `1.2-rc9 …` is `C10` one level down). -/
+theorem C10_numeric (a b : Str) (la lb : Lexed) (hla : lex a = .ok la) (hlb : lex b = .ok lb)
+    (cs r1 r2 : List Str) (l d1 d2 : Str)
+    (hl : ∀ c ∈ l, Str.isAlpha c = true) (hd1 : ∀ c ∈ d1, isDig c = true) (hd2 : ∀ c ∈ d2, isDig c = true)
+    (n1 : d1 ≠ []) (n2 : d2 ≠ [])
+    (hca : la.comps = cs ++ (l ++ d1) :: r1) (hcb : lb.comps = cs ++ (l ++ d2) :: r2)
+    (hne : Str.toNat d1 ≠ Str.toNat d2) :
+    stdCompare false a b = .ok (cmpNat (Str.toNat d1) (Str.toNat d2)) := by
+  simp only [stdCompare, hla, hlb, cmpLexed, Bool.false_eq_true, if_false, Except.ok.injEq]
+  rw [cmpSort_unfold, hca, hcb, cmpComps_common_prefix, cmpC_numeric ⟨hl, hd1⟩ ⟨hl, hd2⟩ n1 n2]
+  have : cmpNat (Str.toNat d1) (Str.toNat d2) ≠ 0 := by
+    simp only [cmpNat]; split
+    · omega
+    · split <;> omega
+  simp [this]
+
+/-- A longer name follows its prefix: `1.2 < 1.2.0`, whatever the `-pre`/`+post` parts are. -/
+theorem C10_longer_follows_prefix (a b : Str) (la lb : Lexed) (hla : lex a = .ok la) (hlb : lex b = .ok lb)
+    (e : List Str) (he : e ≠ []) (h : lb.comps = la.comps ++ e) :
+    stdCompare false a b = .ok (-1) := by
+  simp only [stdCompare, hla, hlb, cmpLexed, Bool.false_eq_true, if_false, Except.ok.injEq]
+  rw [cmpSort_unfold, h, cmpComps_longer _ _ he]; simp
+
+/-- A pre-release precedes the release: equal primary parts (as the component loop sees them — `1.0`,
+`1_0` and `01.0` are equal), a `-pre` part on the left and none on the right. -/
+theorem C10_prerelease_precedes (a b : Str) (la lb : Lexed) (hla : lex a = .ok la) (hlb : lex b = .ok lb)
+    (hp : cmpComps la.comps lb.comps = 0) (hs : la.sec.present = true) (hn : lb.sec.present = false) :
+    stdCompare false a b = .ok (-1) := by
+  simp only [stdCompare, hla, hlb, cmpLexed, Bool.false_eq_true, if_false, Except.ok.injEq]
+  rw [cmpSort_unfold, hp]
+  simp [secTer, hs, hn]
+
+/-- A post-release follows the release: equal primary parts, no `-pre` part on either side, a `+post`
+part (with a non-empty primary, i.e. not of the form `m<digits>`) on the left and none on the right. -/
+theorem C10_postrelease_follows (a b : Str) (la lb : Lexed) (hla : lex a = .ok la) (hlb : lex b = .ok lb)
+    (hp : cmpComps la.comps lb.comps = 0) (hs : la.sec.present = false) (hn : lb.sec.present = false)
+    (p : Str) (s' t' : Lexed) (ht : la.ter = .node p s' t') (hpn : p ≠ []) (hb : lb.ter = .absent) :
+    stdCompare false a b = .ok 1 := by
+  simp only [stdCompare, hla, hlb, cmpLexed, Bool.false_eq_true, if_false, Except.ok.injEq]
+  rw [cmpSort_unfold, hp]
+  simp only [ne_eq, not_true_eq_false, if_false, secTer, hs, hn, Bool.or_self, Bool.false_eq_true, ht, hb]
+  rw [cmpSort_unfold]
+  simp only [Lexed.comps, Lexed.prim, splitSep]
+  rw [cmpComps_splitSep_absent hpn]; simp
+
+/-! non-vacuity of the hypotheses and instances of the clauses -/
+example : conventionalName n_1d2mrc1p3 = true ∧ convName n_1d2mrc1p3 = true := by decide
+example : conventionalName n_v1u0mrc1 = true ∧ conventionalName n_v1d0 = true := by decide
+example : convName n_a1db2 = true ∧ conventionalName n_a1db2 = false := by decide    -- `a1.b2`: inside the class of the theorems, outside the property's grammar
+example : convName n_1a = false := by decide                                         -- `1a` (digits before letters) is outside: see the cycle witness
+example : stdCompare false n_1d9 n_1d10 = .ok (-1) ∧ stdCompare true n_1d9 n_1d10 = .ok (-1) := by decide
+example : stdCompare false n_1d2 n_1d2d0 = .ok (-1) := by decide
+example : stdCompare false n_1d2mrc1 n_1d2 = .ok (-1) ∧ stdCompare false n_1d2p1 n_1d2 = .ok 1 := by decide
+example : stdCompare false n_1d2mrc1p3 n_1d2p1 = .ok (-1) := by decide
+
+/-! ## relational requests
+
+`versionMatch x expr` is the model of `Eups.version_match(x, expr)` being truthy.  `render t ts` is the
+text `op v || op v || …` (single blanks), `isRelop`: one of `< <= == >= >`, `wfName`: non-empty, over
+`[A-Za-z0-9._+-]`. -/
+
+/-- the relation an operator stands for, on the sign of the comparison -/
+def relSem (op : Str) (r : Int) : Prop :=
+  (op = opLt ∧ r < 0) ∨ (op = opLe ∧ r ≤ 0) ∨ (op = opEq ∧ r = 0) ∨ (op = opGe ∧ r ≥ 0) ∨ (op = opGt ∧ r > 0)
+
+theorem termHolds_iff (cmp : Str → Str → Except Err Int) (x : Str) (t : Term) (hop : isRelop t.1) :
+    termHolds cmp x t = true ↔ ∃ r, cmp x t.2 = .ok r ∧ relSem t.1 r := by
+  have d : opLt ≠ opLe ∧ opLt ≠ opEq ∧ opLt ≠ opGe ∧ opLt ≠ opGt ∧ opLe ≠ opEq ∧ opLe ≠ opGe ∧ opLe ≠ opGt ∧
+      opEq ≠ opGe ∧ opEq ≠ opGt ∧ opGe ≠ opGt := by decide
+  obtain ⟨d1, d2, d3, d4, d5, d6, d7, d8, d9, d10⟩ := d
+  simp only [termHolds]
+  cases hc : cmp x t.2 with
+  | error e => simp
+  | ok r =>
+    simp only [Except.ok.injEq, exists_eq_left']
+    rcases hop with h | h | h | h | h <;> rw [h] <;>
+      simp [relHolds, relSem, d1, d2, d3, d4, d5, d6, d7, d8, d9, d10, d1.symm, d2.symm, d3.symm, d4.symm, d5.symm,
+        d6.symm, d7.symm, d8.symm, d9.symm, d10.symm]
+
+/-- **Relational requests accept exactly the versions the order puts in the stated relation, and an
+`||` chain is the disjunction of its terms** — for every name `x` and every chain whose comparisons
+with `x` are defined in the strict mode (no "cannot be sorted", no malformed name). -/
+theorem C10_match_iff (x : Str) (t : Term) (ts : List Term)
+    (hwf : ∀ y ∈ t :: ts, WfTerm y) (hcmp : ∀ y ∈ t :: ts, ∃ r, stdCompare true x y.2 = .ok r) :
+    versionMatch x (render t ts) = .ok true ↔
+      ∃ y ∈ t :: ts, ∃ r, stdCompare true x y.2 = .ok r ∧ relSem y.1 r := by
+  have htok := tokenize_render t ts (hwf t (by simp)) (fun y hy => hwf y (by simp [hy]))
+  have hloop := matchLoop_chain (stdCompare true) x t ts (fun y hy => ⟨(hwf y hy).1, hcmp y hy⟩)
+  simp only [versionMatch, htok, hloop, Except.ok.injEq, List.any_eq_true]
+  constructor
+  · rintro ⟨y, hy, hh⟩
+    exact ⟨y, hy, (termHolds_iff _ x y (hwf y hy).1).mp hh⟩
+  · rintro ⟨y, hy, hh⟩
+    exact ⟨y, hy, (termHolds_iff _ x y (hwf y hy).1).mpr hh⟩
+
+/-- … and never fails on such a chain. -/
+theorem C10_match_total (x : Str) (t : Term) (ts : List Term)
+    (hwf : ∀ y ∈ t :: ts, WfTerm y) (hcmp : ∀ y ∈ t :: ts, ∃ r, stdCompare true x y.2 = .ok r) :
+    ∃ b, versionMatch x (render t ts) = .ok b := by
+  have htok := tokenize_render t ts (hwf t (by simp)) (fun y hy => hwf y (by simp [hy]))
+  have hloop := matchLoop_chain (stdCompare true) x t ts (fun y hy => ⟨(hwf y hy).1, hcmp y hy⟩)
+  exact ⟨(t :: ts).any (termHolds (stdCompare true) x), by simp only [versionMatch, htok, hloop]⟩
+
+/-- On conventional names of the property's grammar with the same letters in front the comparisons
+are always defined and are the sorting order: the request matches iff some term holds in that order. -/
+theorem C10_match_iff_conv (x : Str) (lx : Lexed) (hlx : lex x = .ok lx) (hx : conventional lx = true)
+    (t : Term) (ts : List Term) (hwf : ∀ y ∈ t :: ts, WfTerm y)
+    (hconv : ∀ y ∈ t :: ts, ∃ ly, lex y.2 = .ok ly ∧ conventional ly = true ∧ letterPrefix lx = letterPrefix ly) :
+    versionMatch x (render t ts) = .ok true ↔
+      ∃ y ∈ t :: ts, ∃ r, stdCompare false x y.2 = .ok r ∧ relSem y.1 r := by
+  have hst : ∀ y ∈ t :: ts, stdCompare true x y.2 = stdCompare false x y.2 := by
+    intro y hy
+    obtain ⟨ly, hly, hc, hp⟩ := hconv y hy
+    exact C10_conv_strict_total x y.2 lx ly hlx hly hx hc hp
+  have hcmp : ∀ y ∈ t :: ts, ∃ r, stdCompare true x y.2 = .ok r := by
+    intro y hy
+    obtain ⟨ly, hly, _, _⟩ := hconv y hy
+    rw [hst y hy]
+    exact C10_sort_total x y.2 lx ly hlx hly
+  rw [C10_match_iff x t ts hwf hcmp]
+  constructor
+  · rintro ⟨y, hy, r, h1, h2⟩; exact ⟨y, hy, r, by rw [← hst y hy]; exact h1, h2⟩
+  · rintro ⟨y, hy, r, h1, h2⟩; exact ⟨y, hy, r, by rw [hst y hy]; exact h1, h2⟩
+
+/-- A version that cannot be sorted against the request's does not match. -/
+theorem C10_match_unsortable (x : Str) (t : Term) (hwf : WfTerm t)
+    (h : stdCompare true x t.2 = .error .unsortable) : versionMatch x (render t []) = .ok false := by
+  have htok := tokenize_render t [] hwf (by simp)
+  simp [versionMatch, htok, tailToks, matchLoop, hasRelop_relop hwf.1, matchPrim, h]
+
+/-- A bare version is the request `== version`. -/
+theorem C10_match_implicit_eq (x v : Str) (hv : wfName v) (h1 : v ≠ sAnd) (h2 : v ≠ sOr) :
+    versionMatch x v = versionMatch x (render (opEq, v) []) := by
+  have htok := tokenize_render (opEq, v) [] ⟨Or.inr (Or.inr (Or.inl rfl)), hv⟩ (by simp)
+  have e1 : hasRelop opEq = true := by decide
+  simp [versionMatch, htok, tokenize_name hv, tailToks, matchLoop, hasRelop_name hv.2, plainTok_name hv, h1, h2, e1]
+
+/-! ## latest -/
+
+/-- **`latest` is the maximum**: from a non-empty list of conventional names the selection returns a
+member that no member exceeds, at its first position in the list. -/
+theorem C10_latest_is_max (names : List Str) (hne : names ≠ []) (hconv : ∀ v ∈ names, convName v = true) :
+    ∃ i v, latest names = .ok (some i) ∧ names[i]? = some v ∧ (∀ j, j < i → names[j]? ≠ some v) ∧
+      ∀ w ∈ names, ∃ r, stdCompare false w v = .ok r ∧ r ≤ 0 := by
+  obtain ⟨ps, hps, hc⟩ := lexPairs_of_conv hconv
+  obtain ⟨hmap, hlex⟩ := lexPairs_spec hps
+  have hpne : ps ≠ [] := by
+    intro e; subst e; simp at hmap; exact hne hmap
+  obtain ⟨m, hm, hmem, hmax⟩ := lastMax_none_spec ps hpne hc
+  have hv : m.1 ∈ names := by rw [← hmap]; exact List.mem_map_of_mem hmem
+  obtain ⟨hget, hfirst⟩ := findIdx_beq_spec names m.1 hv
+  refine ⟨names.findIdx (· == m.1), m.1, ?_, hget, hfirst, ?_⟩
+  · simp only [latest, hps, hm]
+  · intro w hw
+    rw [← hmap] at hw
+    obtain ⟨p, hp, rfl⟩ := List.mem_map.mp hw
+    refine ⟨cmpSort p.2 m.2, ?_, hmax p hp⟩
+    simp [stdCompare, hlex p hp, hlex m hmem, cmpLexed]
+
+/-- The same through the stacks (`_findLatestProduct`): from stacks of conventional versions, not all
+empty, the version returned is declared in some stack and no declared version exceeds it. -/
+theorem C10_latest_across_is_max (stacks : List (List Str))
+    (hconv : ∀ st ∈ stacks, ∀ v ∈ st, convName v = true) (hne : stacks.flatten ≠ []) :
+    ∃ i v, latestAcross stacks = .ok (some (i, v)) ∧ v ∈ stacks.flatten ∧
+      ∀ w ∈ stacks.flatten, ∃ r, stdCompare false w v = .ok r ∧ r ≤ 0 := by
+  obtain ⟨out, hgo, hinv⟩ := latestAcrossGo_spec stacks 0 none [] hconv rfl
+  simp only [List.nil_append] at hinv
+  cases out with
+  | none => exact absurd hinv hne
+  | some o =>
+    obtain ⟨i, v, lv⟩ := o
+    obtain ⟨hv, _, hmem, hall⟩ := hinv
+    refine ⟨i, v, by simp only [latestAcross, latestAcrossMin, hgo], hmem, ?_⟩
+    intro w hw
+    obtain ⟨lw, h1, _, h3⟩ := hall w hw
+    exact ⟨cmpSort lw lv, by simp [stdCompare, h1, hv, cmpLexed], h3⟩
+
+/-- … and through the database branch (`readCache=False`, what `setup` uses; stacks without a cache),
+where every stack's products arrive sorted by their version *strings*: still a maximum of the declared
+versions in the version order. -/
+theorem C10_latest_db_is_max (stacks : List (List Str))
+    (hconv : ∀ st ∈ stacks, ∀ v ∈ st, convName v = true) (hne : stacks.flatten ≠ []) :
+    ∃ i v, latestAcross (stacks.map dbOrder) = .ok (some (i, v)) ∧ v ∈ stacks.flatten ∧
+      ∀ w ∈ stacks.flatten, ∃ r, stdCompare false w v = .ok r ∧ r ≤ 0 := by
+  have hconv' : ∀ st ∈ stacks.map dbOrder, ∀ v ∈ st, convName v = true := by
+    intro st hst v hv
+    obtain ⟨st0, h0, rfl⟩ := List.mem_map.mp hst
+    exact hconv st0 h0 v ((mem_dbOrder v st0).mp hv)
+  have hne' : (stacks.map dbOrder).flatten ≠ [] := by
+    intro e
+    cases h : stacks.flatten with
+    | nil => exact hne h
+    | cons a as =>
+      have : a ∈ (stacks.map dbOrder).flatten := (mem_flatten_dbOrder a stacks).mpr (by rw [h]; simp)
+      rw [e] at this; simp at this
+  obtain ⟨i, v, h1, h2, h3⟩ := C10_latest_across_is_max (stacks.map dbOrder) hconv' hne'
+  exact ⟨i, v, h1, (mem_flatten_dbOrder v stacks).mp h2, fun w hw => h3 w ((mem_flatten_dbOrder w stacks).mpr hw)⟩
+
+/-! non-vacuity: a chain, its rendering, the loop's answer; a list and its latest member -/
+example : render (opGe, n_1d2) [(opLt, n_1d10)] = [62, 61, 32, 49, 46, 50, 32, 124, 124, 32, 60, 32, 49, 46, 49, 48] := by decide
+#guard Str.toString (render (opGe, n_1d2) [(opLt, n_1d10)]) == ">= 1.2 || < 1.10"
+example : versionMatch n_1d9 (render (opGe, n_1d10) [(opLt, n_1d2)]) = .ok false := by decide
+example : versionMatch n_1d9 (render (opGe, n_1d10) [(opLe, n_1d9)]) = .ok true := by decide
+example : versionMatch n_v1 (render (opGe, n_w1) []) = .ok false := by decide     -- unsortable: no match
+example : latest [n_1d9, n_1d10, n_1d2, n_1d10] = .ok (some 1) := by decide
+example : latestAcross [[n_1d9, n_1d2], [], [n_1d10, n_1d2d0]] = .ok (some (2, n_1d10)) := by decide
+-- as strings `1.9` is the last of the stack; as versions `1.10` is
+example : dbOrder [n_1d9, n_1d10, n_1d2] = [n_1d10, n_1d2, n_1d9] ∧ latestAcross ([[n_1d9, n_1d10, n_1d2]].map dbOrder) = .ok (some (0, n_1d10)) := by decide
+
+/-! ## witnesses -/
+
+/-- D5, the pinned comparator: the primary parts were tested for *string* equality before the component
+loop, so `v1.0 == v1_0-rc1` and `v1_0-rc1 == v1.0-rc1` while `v1.0 > v1.0-rc1`: not transitive on
+conventional names that mix `.` and `_` (repaired by `fix-g10` 4be966e; the repaired comparator orders them). -/
+theorem C10_mixed_separator_witness :
+    stdComparePinned false n_v1d0 n_v1u0mrc1 = .ok 0 ∧
+    stdComparePinned false n_v1u0mrc1 n_v1d0mrc1 = .ok 0 ∧
+    stdComparePinned false n_v1d0 n_v1d0mrc1 = .ok 1 ∧
+    stdCompare false n_v1d0 n_v1u0mrc1 = .ok 1 ∧
+    stdCompare false n_v1u0mrc1 n_v1d0mrc1 = .ok 0 := by decide
+
+/-- D5 again, through leading zeros: `1 == 01-rc02+1 == 1-rc02+1 < 1` on the pinned comparator. -/
+theorem C10_leading_zero_witness :
+    stdComparePinned false n_1 n_01mrc02p1 = .ok 0 ∧
+    stdComparePinned false n_01mrc02p1 n_1mrc02p1 = .ok 0 ∧
+    stdComparePinned false n_1mrc02p1 n_1 = .ok (-1) ∧
+    stdCompare false n_1 n_01mrc02p1 = .ok 1 := by decide
+
+/-- Outside the conventional names the sorting mode is not transitive: `2 < 10 < 1a < 2`
+(numbers compare numerically, `1a` compares as a string).  Recorded; the statement claims
+transitivity for conventional names only.  The strict mode refuses `10` vs `1a`. -/
+theorem C10_arbitrary_cycle_witness :
+    stdCompare false n_2 n_10 = .ok (-1) ∧
+    stdCompare false n_10 n_1a = .ok (-1) ∧
+    stdCompare false n_1a n_2 = .ok (-1) ∧
+    stdCompare true n_10 n_1a = .error .unsortable := by decide
+
+end EupsModel.C10
